@@ -22,6 +22,31 @@ MUTANTS = [
     m('C09-decode-nolen', 'C09', F_ENC, "if len(v) == encoding[1] and v.startswith(encoding[0])", "if v.startswith(encoding[0])", 'base58_decode'),
     m('C09-decode-nocheck', 'C09', F_ENC, "return base58.b58decode_check(v)[prefix_len:]", "return base58.b58decode(v)[prefix_len:-4]", 'base58_decode'),
     m('C09-site', 'C09', 'src/pytezos/context/impl.py', "base58_encode(b'\\x00' * 4, b'Net')", "base58_encode(b'\\x00' * 8, b'Net')", 'encode-site'),
+    # ---- C03
+    m('C03-pair-flip', 'C03', 'src/pytezos/michelson/types/pair.py', "            if item < other.items[i]:\n                return True\n            if other.items[i] < item:\n                return False",
+      "            if item < other.items[i]:\n                return True\n            if other.items[i] < item:\n                return True", 'PairType.__lt__'),
+    m('C03-pair-early', 'C03', 'src/pytezos/michelson/types/pair.py', "            if other.items[i] < item:\n                return False\n        return False", "            return False\n        return False", 'PairType.__lt__'),
+    m('C03-option-none', 'C03', 'src/pytezos/michelson/types/option.py', "        if other.item is None:\n            return False\n        elif self.item is None:\n            return True",
+      "        if self.item is None:\n            return False\n        elif other.item is None:\n            return True", 'OptionType.__lt__'),
+    m('C03-or-left', 'C03', 'src/pytezos/michelson/types/sum.py', "        if self.is_left() and other.is_right():\n            return True", "        if self.is_right() and other.is_left():\n            return True", 'OrType.__lt__'),
+    m('C03-addr-rank', 'C03', 'src/pytezos/michelson/types/domain.py', "kind = 0 if is_pkh(address) else 1 if is_kt(address) else 2", "kind = 1 if is_pkh(address) else 0 if is_kt(address) else 2", 'AddressType.__lt__'),
+    m('C03-addr-noep', 'C03', 'src/pytezos/michelson/types/domain.py', "kind = 0 if is_pkh(address) else 1 if is_kt(address) else 2", "kind = 0 if is_pkh(self.value) else 1 if is_kt(self.value) else 2", 'with entrypoint'),
+    m('C03-key-rank', 'C03', 'src/pytezos/michelson/types/domain.py', "'sppk': (1, 0),\n            'p2pk': (2, 1),", "'sppk': (2, 0),\n            'p2pk': (1, 1),", 'KeyType.__lt__'),
+    m('C03-compare-sign', 'C03', 'src/pytezos/michelson/instructions/compare.py', "    elif a < b:\n        return -1\n    else:\n        return 1", "    elif a < b:\n        return 1\n    else:\n        return -1", ''),
+    m('C03-sorted-value', 'C03', 'src/pytezos/michelson/types/map.py', "items = sorted(self.items + [(key, val)], key=lambda x: x[0])", "items = sorted(self.items + [(key, val)], key=lambda x: x[1])", 'sorted site'),
+    m('C03-hash-dropped', 'C03', 'src/pytezos/michelson/types/option.py', "    def __hash__(self):\n        return hash(self.item)\n", "", '__eq__ with __hash__'),
+    # ---- C14
+    m('C14-add-nosort', 'C14', 'src/pytezos/michelson/types/set.py', "return type(self)(sorted(items))", "return type(self)(items)", 'SetType.add'),
+    m('C14-add-nomember', 'C14', 'src/pytezos/michelson/types/set.py', "        if self.contains(item):\n            return copy(self)\n        else:\n            items = [item] + self.items\n            return type(self)(sorted(items))",
+      "        items = [item] + self.items\n        return type(self)(sorted(items))", 'SetType.add'),
+    m('C14-literal-nocheck', 'C14', 'src/pytezos/michelson/types/set.py', "        items = list(map(cls.args[0].from_micheline_value, val_expr))\n        cls.check_constraints(items)\n", "        items = list(map(cls.args[0].from_micheline_value, val_expr))\n", 'from_micheline_value'),
+    m('C14-map-sort-nokey', 'C14', 'src/pytezos/michelson/types/map.py', "items = sorted(self.items + [(key, val)], key=lambda x: x[0])", "items = sorted(self.items + [(key, val)])", 'MapType.update'),
+    m('C14-map-append', 'C14', 'src/pytezos/michelson/types/map.py', "items = sorted(self.items + [(key, val)], key=lambda x: x[0])", "items = self.items + [(key, val)]", 'MapType.update'),
+    m('C14-map-rekey', 'C14', 'src/pytezos/michelson/types/map.py', "items = [(k, v if k != key else val) for k, v in self.items]", "items = [(key if k == key else k, v if k != key else val) for k, v in self.items][::-1]", 'MapType.update'),
+    m('C14-check-nodup', 'C14', 'src/pytezos/michelson/types/map.py', "        assert len(set(keys)) == len(keys), f'duplicate keys found'\n", "", 'rejects duplicates'),
+    m('C14-check-noorder', 'C14', 'src/pytezos/michelson/types/set.py', "        assert items == sorted(items), f'set elements are not sorted'\n", "", 'rejects unsorted'),
+    m('C14-inplace', 'C14', 'src/pytezos/michelson/types/set.py', "            items = [item] + self.items\n            return type(self)(sorted(items))", "            self.items.append(item)\n            return type(self)(sorted(self.items))", '.append()'),
+    m('C14-mem-get', 'C14', 'src/pytezos/michelson/instructions/struct.py', "res = BoolType.from_value(src.contains(key))", "res = BoolType.from_value(src.get(key) is not None)", 'MemInstruction'),
     # ---- C05
     m('C05-tag-swap', 'C05', F_TAGS, "'DUG': b'\\x71',", "'DUG': b'\\x70',", 'prim_tags[DUG]'),
     m('C05-filler-2args', 'C05', F_FORGE, "elif args_len >= 3:\n                res.append(b'\\x00' * 4)", "elif args_len >= 2:\n                res.append(b'\\x00' * 4)", 'shape prim2a0'),
